@@ -81,9 +81,9 @@ func (ex *Exec) floatKernel(st *State, e ast.Expr) (Val, bool) {
 				if tv, okc := ex.P.Info.Types[x.Y]; okc && tv.Value != nil && tv.Value.ExactString() == "10" {
 					dv := ex.eval(st, d).term()
 					unit, hi, lemma := durUnit(name)
-					ex.oblig(st, "fp-range", x, "0<="+ex.exprStr(d)+"<"+name+"-range", And(Le(IntLit(0), dv), Lt(dv, IntLit(hi))))
+					inRange := And(Le(IntLit(0), dv), Lt(dv, IntLit(hi)))
 					ex.useKernel("lt10_" + lemma)
-					return boolVal(Lt(dv, IntLit(10*unit))), true
+					return boolVal(Ite(inRange, Lt(dv, IntLit(10*unit)), Fresh("fpcmp", SBool))), true
 				}
 			}
 		}
@@ -94,9 +94,11 @@ func (ex *Exec) floatKernel(st *State, e ast.Expr) (Val, bool) {
 				if d, name, okd := ex.durMethod(fl.Args[0]); okd {
 					dv := ex.eval(st, d).term()
 					unit, hi, lemma := durUnit(name)
-					ex.oblig(st, "fp-range", x, "0<="+ex.exprStr(d)+"<"+name+"-range", And(Le(IntLit(0), dv), Lt(dv, IntLit(hi))))
+					inRange := And(Le(IntLit(0), dv), Lt(dv, IntLit(hi)))
 					ex.useKernel("floor_" + lemma)
-					return scalar(ex.typeOf(x), EDiv(dv, IntLit(unit))), true
+					other := freshVal("fpfloor", ex.typeOf(x))
+					st.assumeAll(typeFacts(other))
+					return scalar(ex.typeOf(x), Ite(inRange, EDiv(dv, IntLit(unit)), other.C[0])), true
 				}
 			}
 		}
@@ -117,11 +119,12 @@ func (ex *Exec) floatKernel(st *State, e ast.Expr) (Val, bool) {
 											if kE, okK := ex.isConv(sub.Y, types.Float64); okK && isInteger(ex.typeOf(kE)) && isInteger(ex.typeOf(nE)) {
 												n := ex.eval(st, nE).term()
 												k := ex.eval(st, kE).term()
-												ex.oblig(st, "fp-range", x, "0<=n<1e9,digits in {2,3}", And(Le(IntLit(0), n), Lt(n, IntLit(1000000000)), Or(Eq(k, IntLit(2)), Eq(k, IntLit(3)))))
+												inRange := And(Le(IntLit(0), n), Lt(n, IntLit(1000000000)), Or(Eq(k, IntLit(2)), Eq(k, IntLit(3))))
 												ex.useKernel("millis_k2")
 												ex.useKernel("millis_k3")
 												r := Ite(Eq(k, IntLit(3)), EDiv(n, IntLit(1000000)), EDiv(n, IntLit(10000000)))
-												return scalar(ex.typeOf(x), ToReal(r)), true
+												// outside the range of the lemma the value is an unconstrained float64
+												return scalar(ex.typeOf(x), Ite(inRange, ToReal(r), Fresh("fpfloor", SReal))), true
 											}
 										}
 									}
